@@ -37,6 +37,10 @@ func scenarioC04(rc *RunCtx) {
 	fl := genFlags(t, 25)
 	fl.Debug = false
 	fl.NoFailFile = !t.Chance("c04.failfile", 35)
+	fl.Short = t.Chance("flags.short", 15)
+	if fl.Short && fl.Checks < 5 {
+		fl.Checks = 5 + fl.Checks // under -short rapid divides the number of checks by 5
+	}
 	if t.Chance("c04.shrink0", 40) {
 		fl.ShrinkTime = 0
 	}
